@@ -1,4 +1,5 @@
 import CasModel.Proofs.OpenSim
+import CasModel.Proofs.OpenOK
 /-
   C03 / C02 / C20 at the level of BYTES and FILESYSTEM EVENTS (Store.lean's scripts, the functions
   the driver executes and the correspondence compares with the real store, syscall by syscall).
@@ -144,19 +145,18 @@ theorem C03_nested_crash_bytes (so : StrictOrder kind.lt) (hH : Hash32 H) (m : M
     (hsave : ∀ idx' un, applyOp kind.lt m.idx op = .ok (idx', un) → SaveOK kind idx')
     (hver : m.next + 1 < U64)
     (cfg : Config) (hk : cfg.kind = kind) (hn : cfg.N = N)
-    (hsaveAny : ∀ (dd : Disk) a, logical H kind dd = .ok a → SaveOK kind a.idx ∧ a.highest + 1 < U64)
     (j j2 : Nat) :
     ∃ evs m', logAndApply H m d op raw = .ok (evs, m') ∧
-      ∀ e1 pre, settingsGate cfg (d.applyAll (evs.take j)) = .ok (e1, pre) →
-      ∀ e1' pre', settingsGate cfg ((d.applyAll (evs.take j)).applyAll
-          ((openBody H cfg (d.applyAll (evs.take j))).1.take j2)) = .ok (e1', pre') →
+      (OpenOK H kind cfg (d.applyAll (evs.take j)) →
+      OpenOK H kind cfg ((d.applyAll (evs.take j)).applyAll
+          ((openBody H cfg (d.applyAll (evs.take j))).1.take j2)) →
       ∃ m2 sys2 hist2, (∀ m' sc, (openBody H cfg ((d.applyAll (evs.take j)).applyAll
             ((openBody H cfg (d.applyAll (evs.take j))).1.take j2))).2 = .ok (m', sc) → m' = m2) ∧
         (m2.idx.map = m.idx.map ∨ m2.idx.map = mapApply kind.lt m.idx.map op) ∧
         Tied H kind sz N m2 sys2 hist2 (((d.applyAll (evs.take j)).applyAll
             ((openBody H cfg (d.applyAll (evs.take j))).1.take j2)).applyAll
           (openBody H cfg ((d.applyAll (evs.take j)).applyAll
-            ((openBody H cfg (d.applyAll (evs.take j))).1.take j2))).1) := by
+            ((openBody H cfg (d.applyAll (evs.take j))).1.take j2))).1)) := by
   obtain ⟨evs, m', hrun, hpre, _, _⟩ :=
     logAndApply_sim H kind sz N so hH m sys hist d t op raw hraw hconv hop hwf hsave hver
   have hM := t.mem_eq H kind sz N
@@ -169,14 +169,13 @@ theorem C03_nested_crash_bytes (so : StrictOrder kind.lt) (hH : Hash32 H) (m : M
     rw [run_append, hM]
     simp [run, hstep]
   refine ⟨evs, m', hrun, ?_⟩
-  intro e1 pre hg e1' pre' hg'
+  intro ⟨e1, pre, hg, hsv⟩ ⟨e1', pre', hg', hsv'⟩
   -- first recovery, cut at j2
   obtain ⟨h1, hh1, acc1, _, _, hpre1, _⟩ := open_of_recoverable H kind sz N so hH cfg hk hn _ _ (hpre j)
-    e1 pre hg (fun a ha => hsaveAny _ a ha)
+    e1 pre hg hsv
   -- second recovery, complete
   obtain ⟨h2, hh2, acc2, _, hr2, _, m2, sys2, hm2, hmap2, t2⟩ :=
-    open_of_recoverable H kind sz N so hH cfg hk hn _ _ (hpre1 j2) e1' pre' hg'
-      (fun a ha => hsaveAny _ a ha)
+    open_of_recoverable H kind sz N so hH cfg hk hn _ _ (hpre1 j2) e1' pre' hg' hsv'
   simp only [List.mem_singleton] at hh2
   subst hh2
   refine ⟨m2, sys2, h2, hm2, ?_, t2⟩
@@ -192,13 +191,12 @@ theorem C03_nested_crash_bytes (so : StrictOrder kind.lt) (hH : Hash32 H) (m : M
 theorem C02_reopen_transparent_bytes (so : StrictOrder kind.lt) (hH : Hash32 H) (m : Mem)
     (sys : Sys (KMap Bytes) Bytes) (hist : Recs Bytes) (d : Disk)
     (t : Tied H kind sz N m sys hist d) (cfg : Config) (hk : cfg.kind = kind) (hn : cfg.N = N)
-    (e1 : List Ev) (pre : Bool)
-    (hg : settingsGate cfg (d.applyAll (closeScript m)) = .ok (e1, pre))
-    (hsaveAny : ∀ (dd : Disk) a, logical H kind dd = .ok a → SaveOK kind a.idx ∧ a.highest + 1 < U64) :
+    (ho : OpenOK H kind cfg (d.applyAll (closeScript m))) :
     ∃ m2 sys2, (∀ m' sc, (openBody H cfg (d.applyAll (closeScript m))).2 = .ok (m', sc) → m' = m2) ∧
       m2.idx.map = m.idx.map ∧
       Tied H kind sz N m2 sys2 hist ((d.applyAll (closeScript m)).applyAll
         (openBody H cfg (d.applyAll (closeScript m))).1) := by
+  obtain ⟨e1, pre, hg, hsv⟩ := ho
   have hfree : ∀ e ∈ closeScript m, e.segFree = true ∧ e.indexFree = true := by
     intro e he
     unfold closeScript at he
@@ -208,7 +206,7 @@ theorem C02_reopen_transparent_bytes (so : StrictOrder kind.lt) (hH : Hash32 H) 
   have c1 := t.cfg.toDCfg.freeAll H kind sz N sys hist d (closeScript m) hfree
   obtain ⟨h2, hh2, acc, _, hr, _, m2, sys2, hm2, hmap2, t2⟩ :=
     open_of_recoverable H kind sz N so hH cfg hk hn [hist] _ (c1.toRec H kind sz N [hist] (by simp))
-      e1 pre hg (fun a ha => hsaveAny _ a ha)
+      e1 pre hg hsv
   simp only [List.mem_singleton] at hh2
   subst hh2
   refine ⟨m2, sys2, hm2, ?_, t2⟩
